@@ -132,6 +132,18 @@ func findEntry(es []tarEntry, name string) *tarEntry {
 	return nil
 }
 
+func gunzip(b []byte) ([]byte, bool) {
+	if len(b) < 2 || b[0] != 0x1f || b[1] != 0x8b {
+		return nil, false
+	}
+	zr, err := gzip.NewReader(bytes.NewReader(b))
+	if err != nil {
+		return nil, false
+	}
+	u, err := io.ReadAll(zr)
+	return u, err == nil
+}
+
 type blobGetter func(digestHex string, layer bool) ([]byte, bool)
 
 // verifyImage: manifest bytes -> config and layer descriptors match the blobs
@@ -175,13 +187,8 @@ func verifyImage(manifestRaw []byte, get blobGetter, fail func(tag, what string)
 			fail("layer-size-mismatch", fmt.Sprintf("%d vs %d", len(lb), ld.Size))
 		}
 		un := lb
-		if len(lb) > 2 && lb[0] == 0x1f && lb[1] == 0x8b {
-			zr, err := gzip.NewReader(bytes.NewReader(lb))
-			if err == nil {
-				if u, err := io.ReadAll(zr); err == nil {
-					un = u
-				}
-			}
+		if u, ok := gunzip(lb); ok {
+			un = u
 		}
 		if sha(un) != cf.RootFS.DiffIDs[i].Hex {
 			fail("diffid-mismatch", fmt.Sprintf("layer %d", i))
